@@ -50,17 +50,22 @@ func c36Scenarios(thorough bool) []driver.Scenario {
 		take(c27Scenarios(false), func(i int, s driver.Scenario) bool { return s.Sequential && i%9 == 0 }, 0)
 		return out
 	}
-	take(c25Scenarios(false), every(16), 0)
-	take(c26Scenarios(false), every(25), 0)
-	take(c27Scenarios(false), func(i int, s driver.Scenario) bool { return s.Sequential && i%33 == 0 }, 0)
-	take(c28Scenarios(false), func(i int, s driver.Scenario) bool { return s.Sequential && i%5 == 0 }, 0)
-	n := len(out)
+	// channel-level families first (cheap executions, many schedules), then the whole-stack ones
 	take(chanx.Scenarios("C11", false), first(1), b)
 	take(chanx.Scenarios("C18", false), func(i int, _ driver.Scenario) bool { return i == 1 }, b)
-	take(c34Scenarios(false), first(1), b)
 	take(chanx.Scenarios("C16", false), explored, b)
-	for i := n; i < len(out); i++ {
-		out[i].MaxExec = 250 // per worker: the quick tier spreads its budget over all scenario families
+	take(chanx.Scenarios("C19", false), func(i int, _ driver.Scenario) bool { return i == 0 || i == 5 }, b)
+	for i := range out {
+		out[i].MaxExec = 150 // per worker: the quick tier spreads its budget over all scenario families
 	}
+	n := len(out)
+	take(c34Scenarios(false), first(1), b)
+	for i := n; i < len(out); i++ {
+		out[i].MaxExec = 12
+	}
+	take(c25Scenarios(false), every(16), 0)
+	take(c26Scenarios(false), every(19), 0)
+	take(c27Scenarios(false), func(i int, s driver.Scenario) bool { return s.Sequential && i%33 == 0 }, 0)
+	take(c28Scenarios(false), func(i int, s driver.Scenario) bool { return s.Sequential && i%5 == 0 }, 0)
 	return out
 }
